@@ -220,6 +220,9 @@ func (a *agg) add(part string, idx int, r Result) {
 	}
 	if r.Fail != nil {
 		a.fails = append(a.fails, caseFail{part, idx, r})
+		if len(a.fails) >= maxFailures || hangsSeen.Load() >= maxHangs {
+			abortRun.Store(true)
+		}
 	}
 	// keep a handful of samples: the first few of each part, preferring nontrivial ones
 	if len(a.samples) < 12 && (r.Nontrivial || a.partDone[part] <= 2) {
@@ -318,6 +321,7 @@ func runWorker(bin string, spec workerSpec, a *agg, deadline time.Time, onN func
 	sc.Buffer(make([]byte, 1<<20), 64<<20)
 	killed := false
 	hung := false
+	aborted := false
 	var timer *time.Timer
 	if !deadline.IsZero() {
 		timer = time.AfterFunc(time.Until(deadline), func() { killed = true; cmd.Process.Kill() })
@@ -335,6 +339,10 @@ func runWorker(bin string, spec workerSpec, a *agg, deadline time.Time, onN func
 			}
 		case strings.HasPrefix(line, "B "):
 			inflight, _ = strconv.Atoi(line[2:])
+			if abortRun.Load() && spec.Only < 0 {
+				aborted = true
+				cmd.Process.Kill()
+			}
 		case strings.HasPrefix(line, "R "):
 			rest := line[2:]
 			sp := strings.IndexByte(rest, ' ')
@@ -354,7 +362,7 @@ func runWorker(bin string, spec workerSpec, a *agg, deadline time.Time, onN func
 	if timer != nil {
 		timer.Stop()
 	}
-	if killed {
+	if killed || aborted {
 		return -1, false, rb.String(), fmt.Errorf("deadline")
 	}
 	if hung && !done {
@@ -470,6 +478,14 @@ func budget(tier string) time.Duration {
 // abnormal anyway and the remaining cases get a short fuse so that the run
 // still ends in reasonable time. Confirmation re-runs always use the full one.
 var hangsSeen atomic.Int64
+
+// abortRun is set once a run has collected so many failures (or hangs) that
+// exploring the rest would only cost time: the run ends early with
+// exhaustive:false and reports what it found.
+var abortRun atomic.Bool
+
+const maxHangs, maxFailures = 6, 400
+
 var fullFuse atomic.Bool
 
 func caseTimeout() time.Duration {
